@@ -45,7 +45,7 @@ Proof. exact value_packed. Qed.
 Print Assumptions C04_value.
 
 Theorem C04_setvalue_pack : forall l,
-  (match l with x :: _ :: _ => is_list x = false | _ => True end) -> accum l = pack l.
+  (match l with x :: _ :: _ => is_list x = false /\ is_none x = false | _ => True end) -> accum l = pack l.
 Proof. exact accum_pack. Qed.
 Print Assumptions C04_setvalue_pack.
 
@@ -109,50 +109,60 @@ Print Assumptions C04_finished_complete.
    whatever the other handlers return: the failure is remembered by the pass itself (`err`), not only
    by the errors flag, which a nested Value can clear *)
 Theorem C04_pass_failure_blocks_success : forall s e d,
-  kind s e = KUser -> existsb raising (ev_hs (spec s e)) = true ->
+  kind s e = KUser -> existsb raising (upto_stop (ev_hs (spec s e))) = true ->
   count_der DSucc d (log (dispatch e s)) = count_der DSucc d (log s).
 Proof. exact pass_failure_blocks_success. Qed.
 Print Assumptions C04_pass_failure_blocks_success.
 
-(* The full statements are REFUTED for programs with nested-Value returns (unchanged code; open findings
-   C04-nested-value-loses-results / -clears-errors / -success-after-failure): Value.setValue copies
-   result/errors from the still unresolved nested Value. *)
+(* ALL programs: [hpart (log s)] = the handler-activity entries of the log (newest first).  It has no
+   duplicates — every plain handler of every event is invoked at most once, every segment of every
+   generator handler is entered at most once — and the segments of one generator handler are entered in
+   increasing order *)
+Theorem C04_each_handler_once : forall s, reachable s ->
+  NoDup (hpart (log s)) /\ hordered (hpart (log s)).
+Proof. exact each_handler_once. Qed.
+Print Assumptions C04_each_handler_once.
+
+(* ALL programs (with the repaired setValue): once a logged handler of an event has raised, the event's
+   errors flag is set — whatever Values of nested events its other handlers return *)
+Theorem C04_errors_sticky : forall s e, reachable s -> e < next s ->
+  0 < nraised (spec s) e (log s) -> verrors (val s e) = true.
+Proof. exact errors_sticky. Qed.
+Print Assumptions C04_errors_sticky.
+
+(* ... and wherever <e>_success appears in the log, no handler of e had raised before it: success is
+   never fired after a failure (from the dispatcher pass or from processTask) *)
+Theorem C04_no_success_after_failure : forall s e l1 l2, reachable s ->
+  log s = l1 ++ LFD DSucc e :: l2 -> nraised (spec s) e l2 = 0.
+Proof. exact no_success_after_failure. Qed.
+Print Assumptions C04_no_success_after_failure.
+
+(* The three witnesses of the former findings C04-nested-value-* (setValue copied result/errors from the
+   unresolved nested Value) on the model of the code repaired by fixes/C04_nested_value_flags.patch *)
 Definition nest_ev : ev := Ev 2 false false false false SDefault [HP [] (RRet (PInt 10))].
 
-(* handlers returning 5, self.fire(x), 7: the event ends holding 7 *)
-Theorem C04_nested_value_refuted : exists roots sched,
-  let s := run 20 sched (start roots) in
-  quiet s = true /\ phase s 0 = PFin /\ vv (val s 0) = PInt 7 /\ vv (val s 1) = PInt 10 /\
-  vv (val s 0) <> pack [PInt 5; PRef 1; PInt 7].
-Proof.
-  exists [Ev 1 false false false false SDefault
-            [HP [] (RRet (PInt 5)); HP [] (RNest nest_ev); HP [] (RRet (PInt 7))]], [].
-  vm_compute. repeat split; auto; discriminate.
-Qed.
-Print Assumptions C04_nested_value_refuted.
+(* handlers returning 5, self.fire(x), 7: the event holds [5, <Value of x>, 7] and x's Value holds 10 *)
+Example C04_nested_value_kept :
+  let s := run 20 [] (start [Ev 1 false false false false SDefault
+                               [HP [] (RRet (PInt 5)); HP [] (RNest nest_ev); HP [] (RRet (PInt 7))]]) in
+  quiet s = true /\ phase s 0 = PFin /\ vv (val s 0) = pack [PInt 5; PRef 1; PInt 7] /\ vv (val s 1) = PInt 10.
+Proof. vm_compute. repeat split; auto. Qed.
 
-(* a raising handler, then `return self.fire(x)`: errors ends False although a handler raised *)
-Theorem C04_nested_errors_refuted : exists roots sched,
-  let s := run 20 sched (start roots) in
-  quiet s = true /\ phase s 0 = PFin /\ nraised (spec s) 0 (log s) = 1 /\ verrors (val s 0) = false /\
+(* a raising handler, then `return self.fire(x)`: errors stays True, no success *)
+Example C04_nested_errors_kept :
+  let s := run 20 [] (start [Ev 1 true true false false SDefault [HP [] RRaise; HP [] (RNest nest_ev)]]) in
+  quiet s = true /\ phase s 0 = PFin /\ nraised (spec s) 0 (log s) = 1 /\ verrors (val s 0) = true /\
   count_der DSucc 0 (log s) = 0.
-Proof.
-  exists [Ev 1 true true false false SDefault [HP [] RRaise; HP [] (RNest nest_ev)]], [].
-  vm_compute. repeat split; auto.
-Qed.
-Print Assumptions C04_nested_errors_refuted.
+Proof. vm_compute. repeat split; auto. Qed.
 
-(* ... and with a generator handler pending the event finishes from processTask: success after failure *)
-Theorem C04_nested_success_refuted : exists roots sched,
-  let s := run 20 sched (start roots) in
+(* ... also when a generator handler is pending and the event finishes from processTask *)
+Example C04_nested_no_success_after_failure :
+  let s := run 20 [[]; [(1, 2)]; [(1, 2)]]
+             (start [Ev 1 true true false false SDefault
+                       [HP [] RRaise; HP [] (RNest nest_ev); HG [([], PInt 1)] [] false]]) in
   quiet s = true /\ phase s 0 = PFin /\ nraised (spec s) 0 (log s) = 1 /\
-  count_der DFail 0 (log s) = 1 /\ count_der DSucc 0 (log s) = 1.
-Proof.
-  exists [Ev 1 true true false false SDefault
-            [HP [] RRaise; HP [] (RNest nest_ev); HG [([], PInt 1)] [] false]], [[]; [(1, 2)]; [(1, 2)]].
-  vm_compute. repeat split; auto.
-Qed.
-Print Assumptions C04_nested_success_refuted.
+  count_der DFail 0 (log s) = 1 /\ count_der DSucc 0 (log s) = 0.
+Proof. vm_compute. repeat split; auto. Qed.
 
 (* non-vacuity: a raising handler, a generator that yields twice, a generator that raises late,
    success + failure requested; ticks stepping the two tasks in both orders *)
@@ -166,7 +176,7 @@ Definition ex_state : st := run 50 [[]; [(1, 2); (1, 1)]; [(1, 1); (1, 2)]; [(1,
 
 Example C04_ex_plain : forallb plain_ev ex_prog = true.
 Proof. vm_compute. reflexivity. Qed.
-Example C04_ex_raising : existsb raising (ev_hs (spec ex_state 0)) = true /\ kind ex_state 0 = KUser.
+Example C04_ex_raising : existsb raising (upto_stop (ev_hs (spec ex_state 0))) = true /\ kind ex_state 0 = KUser.
 Proof. vm_compute. auto. Qed.
 Example C04_ex_reaches_quiet : quiet ex_state = true /\ next ex_state = 10.
 Proof. vm_compute. auto. Qed.
